@@ -4,6 +4,9 @@ use crate::parser::binary::term::{from_bytes_v1, from_bytes_v2};
 use crate::parser::binary::{BinaryVersion, Bytes};
 use std::hash::Hash;
 
+#[cfg(feature = "verif")]
+use crate::verif::MapNew;
+
 use crate::annotations::{GeneId, Genes};
 use crate::annotations::{OmimDiseaseId, OmimDiseases};
 use crate::term::{HpoGroup, HpoTermId, InformationContent};
